@@ -73,7 +73,9 @@ class Run:
         env.update(GOENV)
         hdir = os.path.join(VERIF, "harness")
         # the harness module resolves github.com/ctessum/geom to REPO (replace directive)
-        binp = os.path.join(VERIF, "out", "bin", "drive")
+        # one binary per check, so that checks of different properties can run side by side
+        os.makedirs(os.path.join(self.out, "bin"), exist_ok=True)
+        binp = os.path.join(self.out, "bin", "drive")
         cmd = ["go", "build", "-tags", "verif", "-o", binp, "./cmd/drive"]
         p = subprocess.run(cmd, cwd=hdir, env=env, stdout=subprocess.PIPE, stderr=subprocess.STDOUT, text=True)
         if p.returncode != 0:
